@@ -1,11 +1,13 @@
 #!/bin/bash
 # tools_seed.sh <seed-id> <prop> [<prop>...] : apply seeded/<id>/patch.diff to /repo, run the checks, undo.
+# Evidence and replays of these runs go to a scratch directory (PYVC_OUT), never into /verif/evidence.
 ID=$1; shift
 cd /verif
-git -C /repo apply /verif/seeded/$ID/patch.diff || { echo "patch does not apply"; exit 9; }
+OUT=$(mktemp -d /tmp/pyvc_seed_out.XXXXXX)
+git -C /repo apply /verif/seeded/$ID/patch.diff || { echo "patch does not apply"; rm -rf $OUT; exit 9; }
 for P in "$@"; do
-  ./check $P 2>&1 | grep -v conda | grep -E "^\[|VIOLATION|UNDECIDED|FAULT" | cut -c1-230 | head -6
+  PYVC_OUT=$OUT ./check $P 2>&1 | grep -v conda | grep -E "^\[|VIOLATION|UNDECIDED|FAULT" | cut -c1-230 | head -6
   echo "exit[$P]=${PIPESTATUS[0]}"
 done
 git -C /repo checkout -- .
-rm -rf replays
+rm -rf $OUT
